@@ -37,6 +37,7 @@ type FuncContract struct {
 	requires []*Clause
 	ensures  []*Clause
 	lets     []*Clause
+	gsets    []*Clause // ghost updates applied at exit: lhs := rhs
 	modifies []*Clause // nil => unspecified (callers havoc everything)
 	hasMod   bool
 	pure     bool // modifies nothing
@@ -53,6 +54,7 @@ type FuncContract struct {
 	fresh    bool // result is a freshly allocated object
 	depth    int  // inline depth override
 	maxPaths int
+	reveals  []string
 }
 
 type SpecFunc struct {
@@ -68,6 +70,7 @@ type SpecFunc struct {
 	ptypes []typesT
 	rtype  typesT
 	rec    bool
+	opaque bool // uninterpreted unless a function contract says 'reveal name'
 }
 
 type Lemma struct {
@@ -114,7 +117,7 @@ func rewriteSpecExpr(s string) string {
 			}
 		}
 	}
-	// split on top-level ==>
+	// scan for the first top-level ==> or quantifier (a quantifier extends to the end of the expression)
 	depth := 0
 	for i := 0; i < len(s); i++ {
 		switch s[i] {
@@ -131,6 +134,11 @@ func rewriteSpecExpr(s string) string {
 		case '=':
 			if depth == 0 && strings.HasPrefix(s[i:], "==>") {
 				return "implies_(" + rewriteInner(s[:i]) + ", " + rewriteSpecExpr(s[i+3:]) + ")"
+			}
+		case 'f', 'e':
+			if depth == 0 && i > 0 && (strings.HasPrefix(s[i:], "forall ") || strings.HasPrefix(s[i:], "exists ")) &&
+				(s[i-1] == ' ' || s[i-1] == '&' || s[i-1] == '|' || s[i-1] == '!') {
+				return rewriteInner(s[:i]) + rewriteSpecExpr(s[i:])
 			}
 		}
 	}
@@ -225,7 +233,7 @@ func parseSpecExpr(text string) (ast.Expr, error) {
 	return e, nil
 }
 
-var kwRe = regexp.MustCompile(`^(macro|func|iface|spec|lemma|ghost|import|requires|ensures|modifies|inline|trusted|noverify|pure|fresh|loop|let|props|opaque|inlines|panics_when|depth|maxpaths)\b`)
+var kwRe = regexp.MustCompile(`^(macro|gset|func|iface|spec|lemma|ghost|import|requires|ensures|modifies|inline|trusted|noverify|pure|fresh|loop|let|props|opaque|inlines|panics_when|depth|maxpaths|reveal)\b`)
 
 // ParseContractFile extracts contracts from the //@ lines of a file.
 func ParseContractFile(pkgPath, file string, src []byte, pc *PkgContracts) error {
@@ -315,6 +323,10 @@ func ParseContractFile(pkgPath, file string, src []byte, pc *PkgContracts) error
 				sf.rec = true
 				body = body[4:]
 			}
+			if strings.HasPrefix(body, "opaque ") {
+				sf.opaque = true
+				body = body[7:]
+			}
 			f, err := parser.ParseFile(token.NewFileSet(), "", "package p\nfunc "+sig+" {}", 0)
 			if err != nil {
 				return fmt.Errorf("%s:%d: bad spec signature %q: %v", file, it.line, sig, err)
@@ -381,6 +393,22 @@ func ParseContractFile(pkgPath, file string, src []byte, pc *PkgContracts) error
 				default:
 					cur.panicsWhen = append(cur.panicsWhen, c)
 				}
+			case "gset":
+				i := strings.Index(rest, ":=")
+				if i < 0 {
+					return fmt.Errorf("%s:%d: gset lhs := rhs", file, it.line)
+				}
+				c, err := mk("gset", strings.TrimSpace(rest[i+2:]))
+				if err != nil {
+					return err
+				}
+				lhs, err := parser.ParseExpr(strings.TrimSpace(rest[:i]))
+				if err != nil {
+					return fmt.Errorf("%s:%d: %v", file, it.line, err)
+				}
+				c.exprs = []ast.Expr{lhs}
+				cur.gsets = append(cur.gsets, c)
+				cur.hasMod = cur.hasMod || false
 			case "let":
 				i := strings.Index(rest, "=")
 				if i < 0 {
@@ -429,6 +457,10 @@ func ParseContractFile(pkgPath, file string, src []byte, pc *PkgContracts) error
 			case "inlines":
 				for _, p := range strings.Fields(rest) {
 					cur.inlines = append(cur.inlines, strings.Trim(p, ","))
+				}
+			case "reveal":
+				for _, p := range strings.Fields(rest) {
+					cur.reveals = append(cur.reveals, strings.Trim(p, ","))
 				}
 			case "depth":
 				cur.depth, _ = strconv.Atoi(rest)
